@@ -3,6 +3,7 @@ package fwsim
 import (
 	"encoding/hex"
 	"fmt"
+	"os"
 	"sync"
 	"testing"
 	"testing/synctest"
@@ -252,7 +253,11 @@ func run(c Case) (out Outcome) {
 			if op.HasNonce {
 				nonces++
 			}
-			if v := m.Interest(i, op, wire, collect()); v != nil {
+			em := collect()
+			if os.Getenv("VERIF_TRACE") != "" {
+				fmt.Printf("TRACE op #%d %+v -> %s\n", i, op, emString(em))
+			}
+			if v := m.Interest(i, op, wire, em); v != nil {
 				return fail(i, v)
 			}
 		case "D":
@@ -263,7 +268,11 @@ func run(c Case) (out Outcome) {
 			}
 			th.QueueData(asPkt(wire, op.F, tok, 0))
 			synctest.Wait()
-			if v := m.Data(i, op, wire, tok, collect()); v != nil {
+			em := collect()
+			if os.Getenv("VERIF_TRACE") != "" {
+				fmt.Printf("TRACE op #%d %+v tok %x -> %s\n", i, op, tok, emString(em))
+			}
+			if v := m.Data(i, op, wire, tok, em); v != nil {
 				return fail(i, v)
 			}
 		}
@@ -275,6 +284,9 @@ func run(c Case) (out Outcome) {
 		}
 	}
 	out.Tainted = m.tainted
+	if os.Getenv("VERIF_TRACE") != "" {
+		fmt.Printf("TRACE end of history: stopped=%q\n", m.tainted)
+	}
 	if m.tainted != "" {
 		return out
 	}
